@@ -471,6 +471,56 @@ func main() {
 				step(op)
 				r.Count(fmt.Sprintf("act.badvote%d", kind))
 			case c < 96 && r.Mode == "wal": // kill + restart from the WAL (C07)
+				if R.Chance(25) { // the group's ticker rotates the head file (size limit reached)
+					do("rotate") // answers "ok": keep `res` (the digest the generator reads the state from)
+					r.Count("act.rotate")
+					break
+				}
+				if R.Chance(20) { // directed: killed between the WAL write of the precommit that completes
+					// +2/3 and its handling: the replay itself commits the height; then a second kill
+					pbk := im.C.CS.GetRoundState().ProposalBlock
+					if pbk == nil || dead {
+						break
+					}
+					b := im.NameOfHash(pbk.Hash())
+					if e, ok := im.Blocks[b]; !ok || !e.Valid {
+						break
+					}
+					for _, v := range R.Perm(n) {
+						if v == me || dead {
+							continue
+						}
+						if _, voted := recv[rk{rd, 2}][v]; voted {
+							continue
+						}
+						if (power(rk{rd, 2}, b)+powers[v])*3 > total*2 {
+							op := fmt.Sprintf("vote t=2 h=%d r=%d idx=%d addr=%x block=%s ok=1 peer=p%d presave=1", h, rd, v, im.C.Addr(v), b, v)
+							if recv[rk{rd, 2}] == nil {
+								recv[rk{rd, 2}] = map[int]string{}
+							}
+							recv[rk{rd, 2}][v] = b
+							do(op)
+							step("restart torn=0")
+							r.Count("act.restart-commit-in-replay")
+							step("drain")
+							h2, _, _ := state()
+							if h2 == h+1 && !dead {
+								step(fmt.Sprintf("timeout %d 0 NewHeight", h2))
+								step("drain")
+								b0, v0 := do("digest"), do("votes")
+								step("restart torn=0")
+								b1, v1 := do("digest"), do("votes")
+								cut := func(x string) string { return strings.Split(strings.Split(x, " q=")[0], " | ")[0] }
+								if cut(b0) != cut(b1) || v0 != v1 {
+									fail("replayed-state-differs-from-pre-crash-state", "the replay of a kill finished the height; after a second kill in the next height the round state or the votes differ from the state before that kill", cut(b1)+" "+v1, cut(b0)+" "+v0)
+								}
+							}
+							break
+						}
+						peerVote(v, 2, rd, b, h)
+					}
+					break
+				}
 				switch k := R.Intn(10); {
 				case k < 5:
 					// R1: a kill after a fully processed input; the replay must restore the round state and the votes
